@@ -7,7 +7,8 @@ import re
 from ..core import AnalysisError, call_name, dotted, kwarg, norm, walk_no_nested, has_starstar
 from ..guards import sites
 from ..registry import describe, rule
-from ..util import calls_named, peel, returns_of
+from ..util import calls_named, deep_resolve, peel, returns_of, single_defs
+from .. import tmatch as tm
 
 EB = "pgmpy/estimators/base.py"
 MLE = "pgmpy/estimators/MLE.py"
@@ -35,6 +36,17 @@ def _defs(f):
     return d
 
 
+def _parents_name(repo, f):
+    """the local that plays the role of the parent list: the CPD constructor's `evidence=` or the `parents=` handed to the counting code"""
+    for c in repo.calls_in(f):
+        if call_name(c) == "TabularCPD" and isinstance(kwarg(c, "evidence"), ast.Name):
+            return kwarg(c, "evidence").id
+    for c in repo.calls_in(f):
+        if call_name(c) == "state_counts" and isinstance(kwarg(c, "parents"), ast.Name):
+            return kwarg(c, "parents").id
+    return None
+
+
 def _canon_parents(expr, nodevar):
     return re.sub(r"\b%s\b" % re.escape(nodevar), "NODE", norm(expr, 400))
 
@@ -47,11 +59,12 @@ def parentorder(rc):
     for rel, q in ((EB, "ParameterEstimator.state_counts"), (MLE, "MaximumLikelihoodEstimator.estimate_cpd"), (BE, "BayesianEstimator.estimate_cpd")):
         f = repo.func(rel, q)
         d = _defs(f)
-        if "parents" not in d or len(d["parents"]) != 1:
-            raise AnalysisError(f"{q}: cannot find the single definition of `parents`")
+        pn = _parents_name(repo, f)
+        if pn is None or pn not in d or len(d[pn]) != 1:
+            raise AnalysisError(f"{q}: cannot find the single definition of the parent list")
         nodevar = f.params[1]
-        srcs[q] = (_canon_parents(d["parents"][0], nodevar), d["parents"][0], f)
-        rc.ob(f"{q}: parents = {norm(d['parents'][0])}")
+        srcs[q] = (_canon_parents(d[pn][0], nodevar), d[pn][0], f)
+        rc.ob(f"{q}: parents = {norm(d[pn][0])}")
     canon = {v[0] for v in srcs.values()}
     if len(canon) != 1:
         for q, (c, e, f) in srcs.items():
@@ -72,10 +85,11 @@ def parentorder(rc):
         c = ctor[0]
         ev, evc = kwarg(c, "evidence"), kwarg(c, "evidence_card")
         rc.ob(f"{q}: TabularCPD(evidence={norm(ev)}, evidence_card={norm(evc)})")
-        if dotted(ev) != "parents":
+        pn = _parents_name(repo, f)
+        if not isinstance(ev, ast.Name) or ev.id != pn:
             rc.fail(f, c, f"{q}: the CPD's evidence list must be the very list that ordered the count table's columns", construct=f"{q} evidence")
         cards = d.get(dotted(evc), [None])[0] if dotted(evc) else evc
-        ok = isinstance(cards, ast.ListComp) and dotted(cards.generators[0].iter) == "parents" and "self.state_names" in norm(cards.elt)
+        ok = isinstance(cards, ast.ListComp) and dotted(cards.generators[0].iter) == pn and "self.state_names" in norm(cards.elt)
         if not ok:
             rc.fail(f, c, f"{q}: evidence_card must list the declared cardinalities of the same `parents` list, in the same order", construct=f"{q} evidence_card")
         cnt = [x for x in calls_named(f, "state_counts") if dotted(x.func.value) == "self"]
@@ -130,9 +144,11 @@ def parentorder(rc):
                 rc.fail(fu, c, "fit_update takes the previous CPD's table in the CPD's own parent order, but the estimator lays counts out by sorted parents: "
                         "a CPD whose parents are not listed in sorted order gets its prior columns permuted", construct="fit_update prior order")
     est = [c for c in repo.calls_in(fu) if call_name(c) == "get_parameters"]
-    if not est or norm(kwarg(est[0], "prior_type")) != "'dirichlet'" or dotted(kwarg(est[0], "pseudo_counts")) != "pseudo_counts":
+    pcn = dotted(kwarg(est[0], "pseudo_counts")) if est else None
+    pc_stores = [n for n in ast.walk(fu.node) if isinstance(n, ast.Assign) and isinstance(n.targets[0], ast.Subscript) and pcn is not None and dotted(n.targets[0].value) == pcn]
+    if not est or norm(kwarg(est[0], "prior_type")) != "'dirichlet'" or not pc_stores:
         rc.fail(fu, fu.node, "fit_update = Bayesian estimation with the scaled previous CPDs as Dirichlet pseudo counts", construct="fit_update estimator")
-    if "n_prev_samples" not in norm(fu.node, 100000).split("pseudo_counts", 1)[-1]:
+    if not any(isinstance(n.value, ast.BinOp) and isinstance(n.value.op, ast.Mult) and "n_prev_samples" in (dotted(n.value.left), dotted(n.value.right)) for n in pc_stores):
         rc.fail(fu, fu.node, "the previous CPDs must be scaled by the previous sample size", construct="fit_update scale")
     sn = [c for c in repo.calls_in(fu) if call_name(c) == "BayesianEstimator"]
     if not sn or kwarg(sn[0], "state_names") is None:
@@ -148,7 +164,8 @@ def declared(rc):
         sn = kwarg(c, "state_names")
         t = norm(sn) if sn is not None else ""
         rc.ob(f"{q}: state_names={t[:80]}")
-        if "self.state_names[" not in t or "parents" not in t or f.params[1] not in t:
+        pn = _parents_name(repo, f) or "?"
+        if "self.state_names[" not in t or not any(isinstance(x, ast.Name) and x.id == pn for x in ast.walk(sn)) or not any(isinstance(x, ast.Name) and x.id == f.params[1] for x in ast.walk(sn)):
             rc.fail(f, c, f"{q}: the CPD must be labelled with the declared state names of the node and its parents", construct=f"{q} state_names")
         card = c.args[1] if len(c.args) > 1 else kwarg(c, "variable_card")
         d = _defs(f)
@@ -161,18 +178,20 @@ def declared(rc):
     f = repo.func(EB, "BaseEstimator.state_counts")
     rix = [c for c in repo.calls_in(f) if call_name(c) == "reindex"]
     rows = [c for c in rix if any("self.state_names[variable]" in norm(a) for a in list(c.args) + [k.value for k in c.keywords]) or
-            any(dotted(k.value) == "row_index" for k in c.keywords)]
+            any(k.arg == "index" and "self.state_names[variable]" in norm(deep_resolve(k.value, single_defs(f))) for k in c.keywords)]
     rc.ob(f"state_counts re-indexes rows by declared states at {len(rows)} site(s)")
     if len(rows) < 2:
         rc.fail(f, f.node, "both the parent-free and the conditional count table must be re-indexed by the declared states of the variable", construct="row reindex")
     # MLE: uniform fill of unseen parent configurations before normalising
     f = repo.func(MLE, "MaximumLikelihoodEstimator.estimate_cpd")
-    fills = [n for n in walk_no_nested(f.node) if isinstance(n, ast.Assign) and isinstance(n.targets[0], ast.Subscript) and "state_counts" in norm(n.targets[0])]
+    scn = {b["_SC"] for _, b in tm.find_all(f.node, "_SC = self.state_counts(_n, weighted=weighted)")} | {b["_SC"] for _, b in tm.find_all(f.node, "_SC = self.state_counts(_n)")}
+    fills = [n for n in walk_no_nested(f.node) if isinstance(n, ast.Assign) and isinstance(n.targets[0], ast.Subscript)
+             and any(tm.is_(n.targets[0], "_SC.iloc[:, (_SC.values == 0).all(axis=0)]", {"_SC": x}) is not None for x in scn)]
     ok = False
     for n in fills:
         t = norm(n.targets[0], 200)
         rc.ob(f"MLE unseen-configuration fill: {norm(n, 110)}")
-        if "== 0" in t and ".all(axis=0)" in t and isinstance(n.value, ast.Constant) and n.value.value > 0:
+        if isinstance(n.value, ast.Constant) and isinstance(n.value.value, (int, float)) and n.value.value > 0:
             ok = True
     if not ok:
         rc.fail(f, f.node, "MLE: a parent configuration that never occurs (all-zero column) must be filled with a constant so that it normalises to uniform",
@@ -180,11 +199,23 @@ def declared(rc):
     # Bayesian priors
     f = repo.func(BE, "BayesianEstimator.estimate_cpd")
     d = _defs(f)
-    shape = norm(d.get("cpd_shape", [ast.Constant(value=None)])[0])
+    sd = single_defs(f)
+    node = f.params[1]
+    ones = [c for c in repo.calls_in(f) if call_name(c) == "ones" and c.args and isinstance(c.args[0], ast.Name)]
+    SH = ones[0].args[0].id if ones else None
+    shape_e = deep_resolve(ast.Name(id=SH, ctx=ast.Load()), sd) if SH else None
+    shape = norm(shape_e, 400) if shape_e is not None else "None"
     rc.ob(f"Bayesian pseudo-count shape {shape}")
-    if "node_cardinality" not in shape or "parents_cardinalities" not in shape or not shape.startswith("(node_cardinality"):
+    pn = _parents_name(repo, f) or "?"
+    pdef = norm(deep_resolve(ast.Name(id=pn, ctx=ast.Load()), sd), 200)
+    okshape = isinstance(shape_e, ast.Tuple) and len(shape_e.elts) == 2 and norm(shape_e.elts[0]) == f"len(self.state_names[{node}])" \
+        and isinstance(shape_e.elts[1], ast.Call) and call_name(shape_e.elts[1]) == "prod" and shape_e.elts[1].args \
+        and tm.is_(shape_e.elts[1].args[0], "[len(self.state_names[_p]) for _p in __PS]") is not None \
+        and norm(tm.is_(shape_e.elts[1].args[0], "[len(self.state_names[_p]) for _p in __PS]")["__PS"], 200) == pdef
+    if not okshape:
         rc.fail(f, f.node, "pseudo counts must have the shape (node cardinality, #parent configurations)", construct="pseudo shape")
     pri = {}
+    pri_e = {}
     for s in sites(f.node, lambda n: isinstance(n, ast.Assign) and dotted(n.targets[0]) == "pseudo_counts"):
         tag = None
         for t, pol in s.conds:
@@ -192,14 +223,30 @@ def declared(rc):
                 tag = t.comparators[0].value
         if tag and tag not in pri:
             pri[tag] = norm(s.node.value, 200)
+            pri_e[tag] = s.node.value
     rc.ob(f"priors {pri}")
-    if "np.ones(cpd_shape" not in pri.get("k2", "") or "*" in pri.get("k2", ""):
+    k2 = pri_e.get("k2")
+    if not (isinstance(k2, ast.Call) and call_name(k2) == "ones" and k2.args and dotted(k2.args[0]) == SH):
         rc.fail(f, f.node, "K2 prior = pseudo count 1 for every cell", construct="k2 prior")
-    alpha = norm(d.get("alpha", [ast.Constant(value=None)])[0], 200)
-    if "np.ones(cpd_shape" not in pri.get("bdeu", "") or "alpha" not in pri.get("bdeu", "") or \
-            not re.fullmatch(r"float\(equivalent_sample_size\) / \(node_cardinality \* np\.prod\(parents_cardinalities\)\)", alpha):
-        if not ("equivalent_sample_size" in alpha and "node_cardinality" in alpha and "parents_cardinalities" in alpha and "/" in alpha and "+" not in alpha and "-" not in alpha):
-            rc.fail(f, f.node, f"BDeu prior = equivalent_sample_size / (node cardinality x #parent configurations) per cell; found alpha = {alpha}", construct="bdeu prior")
+    bd = pri_e.get("bdeu")
+    alpha = "None"
+    okbd = False
+    if isinstance(bd, ast.BinOp) and isinstance(bd.op, ast.Mult):
+        sides = [bd.left, bd.right]
+        one = [x for x in sides if isinstance(x, ast.Call) and call_name(x) == "ones" and x.args and dotted(x.args[0]) == SH]
+        other = [x for x in sides if x not in one]
+        if one and other:
+            # the bdeu branch defines alpha right before: take the definition on that branch
+            adefs = d.get(dotted(other[0]), []) if isinstance(other[0], ast.Name) else [other[0]]
+            a_e = deep_resolve(adefs[0], sd) if adefs else None
+            alpha = norm(a_e, 400) if a_e is not None else "None"
+            nc = f"len(self.state_names[{node}])"
+            pcs = norm(shape_e.elts[1].args[0], 300) if okshape else "?"
+            okbd = alpha in (f"float(equivalent_sample_size) / ({nc} * np.prod({pcs}))", f"equivalent_sample_size / ({nc} * np.prod({pcs}))",
+                             f"float(equivalent_sample_size) / (np.prod({pcs}) * {nc})", f"float(equivalent_sample_size) / np.prod({pcs}) / {nc}",
+                             f"float(equivalent_sample_size) / {nc} / np.prod({pcs})")
+    if not okbd:
+        rc.fail(f, f.node, f"BDeu prior = equivalent_sample_size / (node cardinality x #parent configurations) per cell; found alpha = {alpha}", construct="bdeu prior")
     # user-given real pseudo counts must not be forced into an integer array
     for s2 in sites(f.node, lambda n: isinstance(n, ast.Assign) and dotted(n.targets[0]) == "pseudo_counts"):
         if not any(pol and isinstance(t, ast.Compare) and dotted(t.left) == "prior_type" and isinstance(t.comparators[0], ast.Constant) and t.comparators[0].value == "dirichlet"
@@ -213,14 +260,17 @@ def declared(rc):
             if is_int and mentions or (call_name(c) == "astype" and c.args and norm(c.args[0]) in ("int", "'int'") and "pseudo_counts" in norm(c)):
                 rc.fail(f, c, "explicit Dirichlet pseudo counts are real numbers: `" + norm(c, 70) + "` truncates them to integers (0.5 becomes 0)", construct="dirichlet pseudo counts forced to int")
         rc.ob(f"dirichlet pseudo counts: {norm(v, 80)}")
-    bc = d.get("bayesian_counts", [None])[0]
+    ctor = [c for c in repo.calls_in(f) if call_name(c) == "TabularCPD"][0]
+    tbl = ctor.args[2] if len(ctor.args) > 2 else kwarg(ctor, "values")
+    bc = deep_resolve(tbl, {k: v for k, v in sd.items() if not (isinstance(v, ast.Call) and call_name(v) == "state_counts")})
+    bc = bc.args[0] if isinstance(bc, ast.Call) and call_name(bc) in ("array", "asarray") and bc.args else bc
+    scn = {b_["_SC"] for _, b_ in tm.find_all(f.node, "_SC = self.state_counts(_n, weighted=weighted)")} | {b_["_SC"] for _, b_ in tm.find_all(f.node, "_SC = self.state_counts(_n)")}
     rc.ob(f"posterior counts = {norm(bc) if bc is not None else None}")
-    if not (isinstance(bc, ast.BinOp) and isinstance(bc.op, ast.Add) and {dotted(bc.left), dotted(bc.right)} == {"state_counts", "pseudo_counts"}):
+    if not (isinstance(bc, ast.BinOp) and isinstance(bc.op, ast.Add) and "pseudo_counts" in (dotted(bc.left), dotted(bc.right)) and ({dotted(bc.left), dotted(bc.right)} & scn)):
         rc.fail(f, f.node, "Bayesian estimate = (count + pseudo count) normalised", construct="posterior counts")
-    shp = [s for s in sites(f.node, lambda n: isinstance(n, ast.Raise)) if any("pseudo_counts.shape != cpd_shape" in norm(t) for t, pol in s.conds)]
+    shp = [s for s in sites(f.node, lambda n: isinstance(n, ast.Raise)) if any(tm.is_(t, "pseudo_counts.shape != _SH", {"_SH": SH or "?"}) is not None and pol for t, pol in s.conds)]
     if not shp:
         rc.fail(f, f.node, "explicit Dirichlet pseudo counts of the wrong shape must be rejected", construct="dirichlet shape check")
-
 
 @rule("C06.weighted", "`weighted` travels from get_parameters to the counting code; EM's M-step is a weighted MLE on normalised weights", floor=6)
 def weighted(rc):
@@ -228,7 +278,7 @@ def weighted(rc):
     for rel, cls in ((MLE, "MaximumLikelihoodEstimator"), (BE, "BayesianEstimator")):
         gp = repo.func(rel, f"{cls}.get_parameters")
         txt = norm(gp.node, 100000)
-        fw = "estimate_cpd)(node, weighted)" in txt or "weighted=weighted" in txt
+        fw = bool(tm.find_all(gp.node, "delayed(self.estimate_cpd)(_n, weighted)", nested=True)) or "weighted=weighted" in txt
         rc.ob(f"{cls}.get_parameters forwards weighted: {fw}")
         if not fw:
             rc.fail(gp, gp.node, f"{cls}.get_parameters must forward `weighted` to estimate_cpd", construct="forward weighted (get_parameters)")
@@ -264,13 +314,18 @@ def weighted(rc):
     g = repo.func(EM, "ExpectationMaximization.get_parameters")
     mstep = [c for c in calls_named(g, "estimate_cpd") if kwarg(c, "weighted") is not None]
     okm = any(isinstance(kwarg(c, "weighted"), ast.Constant) and kwarg(c, "weighted").value is True for c in mstep)
-    data_set = any(isinstance(n, ast.Assign) and norm(n.targets[0]) == "mle.data" and dotted(n.value) == "weighted_data" for n in walk_no_nested(g.node))
+    data_set = False
+    for c in mstep:
+        M = dotted(c.func.value)
+        for n_, b_ in tm.find_all(g.node, "_M.data = _WD", {"_M": M}):
+            if tm.has(g.node, "_WD = self._compute_weights(n_jobs, latent_card, batch_size)", b_) and n_.lineno < c.lineno:
+                data_set = True
     rc.ob(f"EM M-step: weighted MLE {okm} on the expanded data {data_set}")
     if not (okm and data_set):
         rc.fail(g, g.node, "EM's M-step must be a weighted MLE on the E-step's expanded data", construct="em m-step")
     w = repo.func(EM, "ExpectationMaximization._parallel_compute_weights")
     wt = [n for n in walk_no_nested(w.node) if isinstance(n, ast.Assign) and "_weight" in norm(n.targets[0])]
-    okw = any("weights / weights.sum()" in norm(n.value, 300) and "n_counts" in norm(n.value, 300) for n in wt)
+    okw = any(tm.is_(n.value, "_W / _W.sum() * n_counts[tuple(data_unique.iloc[_i])]") is not None for n in wt)
     rc.ob(f"EM E-step weights: {[norm(n.value, 90) for n in wt]}")
     if not okw:
         rc.fail(w, w.node, "E-step weights of one observed row must be its posterior over latent states (normalised) times the row's multiplicity", construct="em weights")
@@ -289,12 +344,16 @@ def weighted(rc):
     if off_expr is None or not row_loop:
         raise AnalysisError("EM: cannot read the batch offsets / row loop")
     local_defs = [n for n in cw.body if isinstance(n, ast.Assign) and isinstance(n.targets[0], ast.Name)]
+    _, bdu = tm.find(cw.node, "_DU = self.data.drop_duplicates()")
+    if bdu is None or dotted(call.args[0]) != bdu["_DU"]:
+        raise AnalysisError("EM._compute_weights: distinct observed rows not found")
+    DU = bdu["_DU"]
     bad = None
     for nrows, bsz in ((7, 3), (6, 3), (2, 5), (1, 1), (10, 4)):
-        env = Env(batch_size=bsz, **{"data_unique.shape": (nrows, 4)})
+        env = Env(batch_size=bsz, **{f"{DU}.shape": (nrows, 4)})
         try:
             for st in local_defs:
-                if st.targets[0].id in ("data_unique", "n_counts", "cache"):
+                if st.targets[0].id == DU:
                     continue
                 try:
                     env[st.targets[0].id] = eval_expr(st.value, env)
